@@ -1,4 +1,5 @@
 import PV.Lemmas.Res.Balance
+import PV.Generated.ResSites
 /-! # C18 — allocation failure at any point
 
 "Whichever single allocation (or allocation and all later ones) fails inside any library call, the call returns
@@ -186,7 +187,7 @@ theorem degraded_ok_ini_parse (o : IniO) (e : EP) (f : Nat → Bool) (s : St) (f
 theorem balanced_scenario (name : String) (cs : List Call) (h : (name, cs) ∈ scenarioCalls) (f : Nat → Bool) :
     ∃ rs env' s', (runCalls cs {}).run f {} = .ok (rs, env') s' ∧ s'.held = [] ∧ s'.names = [] ∧
       s'.closed ~ List.range' 1 s'.nextFd := by
-  have hall : scenarioCalls.all (fun p => balancedB p.2) = true := by decide
+  have hall : scenarioCalls.all (fun p => balancedB p.2) = true := by decide +kernel
   have := List.all_eq_true.1 hall (name, cs) h
   exact balanced_sound cs this f
 
@@ -197,6 +198,12 @@ theorem init_shutdown_neutral (f : Nat → Bool) :
       = .ok (rs, env') s' ∧ s'.held = [] :=
   let ⟨rs, env', s', h1, h2, _⟩ := balanced_sound _ (by decide) f
   ⟨rs, env', s', h1, h2⟩
+
+/-! ## the translator's part -/
+
+/-- the allocation call sites of the current sources (regenerated by tools/extract.py on every run) are exactly those
+    the model transliterates -/
+theorem alloc_sites_as_modelled : PV.Generated.resSites = modelSites := by decide +kernel
 
 /-! ## non-vacuity: the functions do succeed, and do fail -/
 
